@@ -8,5 +8,5 @@ CONSTANTS
   MaxOps = 5
   MaxSnaps = 1
   HistOn = FALSE
-INVARIANTS RefinesMPT SnapshotIsolated SnapshotFrozen
+INVARIANTS RefinesMPT SnapshotIsolated SnapshotFrozen Resolvable GetThroughCache Canonical
 PROPERTIES FrozenImmutable
